@@ -32,8 +32,20 @@ TRICKY = {
 }
 
 
+# numeric items that are NOT stored in ascending order (item order is storage order, never numeric order)
+NUMERIC = {
+    "a": (3, 1, 2),
+    "b": (20, 30, 10),
+    "c": (2.5, 0.5, 1.5),
+    "d": (2020, 2010, 2000),
+    "e": (7, 5, 6),
+}
+
+
 def items_for(pattern, letters=LETTERS, family="std"):
     lens = PATTERNS[pattern] if isinstance(pattern, str) else pattern
+    if family == "numeric":
+        return {l: tuple(NUMERIC[l][: lens[LETTERS.index(l)]]) for l in letters}
     if family == "tricky":
         return {l: tuple(TRICKY[l][: lens[LETTERS.index(l)]]) for l in letters}
     return {l: tuple(f"{l}{i+1}" for i in range(lens[LETTERS.index(l)])) for l in letters}
